@@ -37,16 +37,20 @@ GENERATORS = [
     ('gen_reader.py', 'ReadGen.v', 'translate-reader'),
     ('gen_views.py', 'ViewGen.v', 'translate-views'),
     ('gen_edit.py', 'EditGen.v', 'translate-edit'),
+    ('gen_glue.py', 'GlueGen.v', 'translate-glue'),
 ]
 # properties whose theorems are about the reader model (the others quantify
 # over arbitrary trees / lists / buffers)
 READER_PROPS = ('C01', 'C02', 'C06', 'C07', 'C08', 'C09', 'C10', 'C11', 'C12', 'C13', 'C14', 'C16', 'C17')
 GEN_PROPS = {
-    'translate-tokrules': (('C19',), 'C19gen.v'),
+    # the glue runs over the translated rules and the translated reader: a
+    # stale TokGen.v / ReadGen.v must not vouch for the glue theorems
+    'translate-tokrules': (('C19', 'C17'), ('C19gen.v', 'C19glue.v', 'C17glue.v')),
     'translate-buffer': (('C20',), 'C20gen.v'),
     'translate-clo': (('C13',), 'C13clogen.v'),
     'translate-args': (('C18',), 'C18gen.v'),
-    'translate-reader': (READER_PROPS, 'ReadGen.v'),
+    'translate-reader': (READER_PROPS, ('ReadGen.v', 'C17glue.v')),
+    'translate-glue': (('C19', 'C17'), ('C19glue.v', 'C17glue.v')),
     'translate-views': (('C03', 'C04'), ('C03gen.v', 'C04gen.v')),
     'translate-edit': (('C05', 'C14'), ('C05gen.v', 'C14gen.v')),
 }
